@@ -216,6 +216,19 @@ func newOctree(elements []elementReference, maxDepth int) *OctTree {
 		bounds.EncapsulateBounds(item.bounds)
 	}
 
+	// A box stores its center and extents, so the corners it reports are
+	// rounded and can fall an ulp short of the corners that were just
+	// encapsulated. Queries prune whole nodes by this box, so widen it until
+	// it really contains the box of every element below it.
+	widen := math.Nextafter(1, 2) - 1
+	for _, item := range elements {
+		for !bounds.Contains(item.bounds.Min()) || !bounds.Contains(item.bounds.Max()) {
+			size := bounds.Size().MaxComponent() + bounds.Center().Abs().MaxComponent()
+			bounds.Expand(math.Max(size*widen, math.SmallestNonzeroFloat64))
+			widen *= 2
+		}
+	}
+
 	if maxDepth == 0 {
 		return &OctTree{
 			bounds:              bounds,
